@@ -292,6 +292,57 @@ pub fn run(ctx: &RunCtx) -> i32 {
     // password that OpaqueString enforcement changes), on one transport / fingerprint combination each
     all_reps.extend(reps_for(false, false, 1).into_iter().filter(|r| !matches!(r.cfg.mech, Mech::None)));
     all_reps.extend(reps_for(true, true, 2).into_iter().filter(|r| !matches!(r.cfg.mech, Mech::None)));
+    // client-builder routes: the optional builder calls (max_transactions, mechanism, fingerprint) in all six orders give
+    // clients that behave alike: same packets (up to the transaction id), same events, same internal state after the
+    // representative's history, one more request, a timer call and a refused request beyond the limit
+    {
+        let mut r = Report::new();
+        let mut cfg_seen = std::collections::HashSet::new();
+        for rp in &all_reps {
+            for max_tx in [1usize, 10] {
+                let mut cfg = rp.cfg.clone();
+                cfg.max_tx = max_tx;
+                if !cfg_seen.insert((cfg.show(), rp.name)) {
+                    continue;
+                }
+                let trace = |order: u8| -> Vec<String> {
+                    super::world::BUILD_ORDER.with(|c| c.set(order));
+                    let mut run = explore::replay(&cfg, &apps, &Nop, &rp.prefix);
+                    let mut out = vec![];
+                    for ev in [Event::Send { app: 0 }, Event::Send { app: 0 }, Event::Timer, Event::Indicate { app: 0 }] {
+                        let o = explore::step(&mut run, &ev, None);
+                        let evs: Vec<String> = o
+                            .events
+                            .iter()
+                            .map(|e| match e {
+                                OEv::Out { who, bytes } => format!("Out({:?},{:04x?})", who, crate::refs::codec::ref_parse(bytes).map(|p| p.tlvs.iter().map(|t| (t.ty, t.value.len())).collect::<Vec<_>>()).unwrap_or_default()),
+                                o => format!("{:?}", o),
+                            })
+                            .collect();
+                        out.push(format!("{:?} {:?} | {}", o.res, evs, run.w.canon()));
+                    }
+                    super::world::BUILD_ORDER.with(|c| c.set(0));
+                    out
+                };
+                let base = trace(0);
+                for order in 1..6u8 {
+                    r.eval();
+                    let t = trace(order);
+                    if t != base {
+                        let ix = t.iter().zip(base.iter()).position(|(a, b)| a != b).unwrap_or(0);
+                        r.violate(
+                            format!("client-builder-call-order-changes-behaviour/{}", rp.name),
+                            format!("order {}: {} | canonical order: {}", order, t.get(ix).cloned().unwrap_or_default(), base.get(ix).cloned().unwrap_or_default()),
+                            json!({"config": cfg.show(), "state": rp.name, "builder_order": order}),
+                        );
+                        break;
+                    }
+                    r.sym("client-builder-routes");
+                }
+            }
+        }
+        shared.merge(r);
+    }
     let n_reps = all_reps.len();
     // (representative, list index) pairs in parallel
     let work: Vec<(usize, usize)> = (0..all_reps.len()).flat_map(|r| (0..n_lists).map(move |l| (r, l))).collect();
@@ -379,9 +430,9 @@ pub fn run(ctx: &RunCtx) -> i32 {
         rep,
         Finish {
             level: "model_checking",
-            rule: format!("{} application attribute lists (every sequence of length <= {} over a 12-entry alphabet: two SOFTWARE values, PRIORITY, and pre-populated USERNAME / REALM / NONCE / USERHASH / PASSWORD-ALGORITHM / PASSWORD-ALGORITHMS / MESSAGE-INTEGRITY / MESSAGE-INTEGRITY-SHA256 / FINGERPRINT) x {} credential-state representatives (14 states reached by replaying short histories on the real client: no mechanism; short-term unlearned / learned MI / learned SHA256 / configured MI / SHA256; long-term first request / retry after plain 401 / retry after cookie 401 with anonymity and algorithms / subsequent MD5 / subsequent SHA256 / retry after 438 / retry after a second 401 naming the realm in another letter case / subsequent request after a second 401 for another realm; each x fingerprint on/off x both transports; the credential states again with a 70-byte user name / 129-byte password and with a non-ASCII user name / a password that OpaqueString enforcement rewrites) x {{request, indication}} (methods 0x003 and 0xFFF on a subset in the quick tier); every emitted packet is parsed by the independent TLV reader: class / method / fresh id, application attributes first (one per type, first-insertion position, last value), then only the mechanism's credential attributes with the client's (not the application's) values, then at most one MI, SHA256, FINGERPRINT in that order, each verifying under the configured credentials by independent HMAC / CRC, no type twice, FINGERPRINT last when configured; retransmissions along timer runs are byte-identical", n_lists, max_len, n_reps),
+            rule: format!("{} application attribute lists (every sequence of length <= {} over a 12-entry alphabet: two SOFTWARE values, PRIORITY, and pre-populated USERNAME / REALM / NONCE / USERHASH / PASSWORD-ALGORITHM / PASSWORD-ALGORITHMS / MESSAGE-INTEGRITY / MESSAGE-INTEGRITY-SHA256 / FINGERPRINT) x {} credential-state representatives (14 states reached by replaying short histories on the real client: no mechanism; short-term unlearned / learned MI / learned SHA256 / configured MI / SHA256; long-term first request / retry after plain 401 / retry after cookie 401 with anonymity and algorithms / subsequent MD5 / subsequent SHA256 / retry after 438 / retry after a second 401 naming the realm in another letter case / subsequent request after a second 401 for another realm; each x fingerprint on/off x both transports; the credential states again with a 70-byte user name / 129-byte password and with a non-ASCII user name / a password that OpaqueString enforcement rewrites) x {{request, indication}} (methods 0x003 and 0xFFF on a subset in the quick tier); every emitted packet is parsed by the independent TLV reader: class / method / fresh id, application attributes first (one per type, first-insertion position, last value), then only the mechanism's credential attributes with the client's (not the application's) values, then at most one MI, SHA256, FINGERPRINT in that order, each verifying under the configured credentials by independent HMAC / CRC, no type twice, FINGERPRINT last when configured; retransmissions along timer runs are byte-identical; clients built with the optional builder calls in each of the six orders (limits 1 and 10) behave alike in every credential state", n_lists, max_len, n_reps),
             assumptions: vec!["which credential attributes each long-term state requires is C08's question; C13 checks form, replacement and verification".into()],
-            required_symbols: vec!["no-mechanism", "short-term/unlearned", "short-term/learned-SHA256", "long-term/first-request", "long-term/retry-after-401-cookie", "long-term/subsequent-SHA256", "long-term/retry-after-438", "long-term-indication-refused", "retransmission-identical"],
+            required_symbols: vec!["no-mechanism", "short-term/unlearned", "short-term/learned-SHA256", "long-term/first-request", "long-term/retry-after-401-cookie", "long-term/subsequent-SHA256", "long-term/retry-after-438", "long-term-indication-refused", "retransmission-identical", "client-builder-routes"],
             min_outcomes: 12,
             exhaustive: true,
             bounds: json!({"max_list_len": max_len, "alphabet": 12, "representatives": n_reps}),
